@@ -127,7 +127,47 @@ def corpus():
     c.append(("unfinished head", b"GET /unfinished HTTP/1.1\r\nHost: h\r\n", {}))
     c.append(("unfinished chunk", hdr(b"POST /c HTTP/1.1", b"Transfer-Encoding: chunked") + b"a\r\n12345", {}))
     c.append(("only CRs and LFs", b"\r\n\r\r\n\n\r\n\r\n\r\n", {}))
+    # recorded finding KF-C02-1: framing error and body limit in one message
+    c.append(("chunk framing error behind a small body limit",
+              hdr(b"POST /c HTTP/1.1", b"Transfer-Encoding: chunked") + b"0x3\r\na;\r0\r\n\r\n0\r\n\r\n" + get, {"max_request_body_size": 6}))
     return c
+
+
+def random_stream(rnd):
+    """a pipelined stream of 1..3 generated requests (valid and malformed mixed), with the adjustments to run it under"""
+    def chunked_body():
+        out = b""
+        for _ in range(rnd.randint(0, 3)):
+            n = rnd.randint(1, 12)
+            ext = rnd.choice([b"", b"", b";a=b", b';q="x y"', b";bad ext"])
+            size = (b"%x" % n) if rnd.random() < 0.9 else rnd.choice([b"0x3", b"g", b" 5", b"5 "])
+            data = bytes(rnd.choice(b"abc\r\n0;") for _ in range(n))
+            term = b"\r\n" if rnd.random() < 0.93 else rnd.choice([b"\n", b"XX", b"\r"])
+            out += size + ext + b"\r\n" + data + term
+        trailer = rnd.choice([b"", b"", b"X-T: v\r\n", b"A: 1\r\nB: 2\r\n", b"bad trailer\r\n"])
+        return out + b"0\r\n" + trailer + b"\r\n"
+    reqs, adj_kw = [], {}
+    for _ in range(rnd.randint(1, 3)):
+        kind = rnd.choice(["get", "get", "fixed", "chunked", "chunked", "expect", "blank", "bad"])
+        if kind == "get":
+            reqs.append(hdr(b"GET /p%d?q HTTP/1.%d" % (rnd.randint(0, 9), rnd.randint(0, 1)), b"Host: h"))
+        elif kind == "fixed":
+            n = rnd.randint(0, 15)
+            reqs.append(hdr(b"POST /f HTTP/1.1", b"Content-Length: %d" % n) + b"x" * n)
+        elif kind == "chunked":
+            reqs.append(hdr(b"POST /c HTTP/1.1", b"Transfer-Encoding: chunked") + chunked_body())
+        elif kind == "expect":
+            reqs.append(hdr(b"PUT /e HTTP/1.1", b"Content-Length: 2", b"Expect: 100-continue") + b"ab")
+        elif kind == "blank":
+            reqs.append(b"\r\n" * rnd.randint(1, 3))
+        else:
+            reqs.append(rnd.choice([hdr(b"GET / HTTP/1.1", b"Bad Header: x"), hdr(b"GET  / HTTP/1.1"), hdr(b"POST / HTTP/1.1", b"Content-Length: x"),
+                                    hdr(b"POST / HTTP/1.1", b"Transfer-Encoding: gzip") + b"zz", b"GET / HTTP/1.1\r\nHost: h\n\r\n"]))
+    if rnd.random() < 0.25:
+        adj_kw["max_request_header_size"] = rnd.randint(20, 60)
+    if rnd.random() < 0.25:
+        adj_kw["max_request_body_size"] = rnd.randint(3, 20)
+    return b"".join(reqs), adj_kw
 
 
 def segment(payload):
@@ -136,13 +176,22 @@ def segment(payload):
     random_k = payload.get("random_k", 0)
     rnd = random.Random(payload.get("seed", 0))
     failures, total, streams = [], 0, []
-    for name, stream, adj_kw in corpus():
+    streams_in = list(corpus())
+    for i in range(payload.get("random_streams", 0)):
+        st, kw = random_stream(rnd)
+        if len(st) >= 2:
+            streams_in.append(("generated #%d" % i, st, kw))
+    for name, stream, adj_kw in streams_in:
+        if name.startswith("generated"):
+            max_cuts_here, random_here = min(max_cuts, 1), max(random_k // 4, 10)
+        else:
+            max_cuts_here, random_here = max_cuts, random_k
         n = len(stream)
         whole = run(stream, [], adj_kw)
         schedules = [tuple(range(1, n))]
-        for k in range(1, max_cuts + 1):
+        for k in range(1, max_cuts_here + 1):
             schedules.extend(itertools.combinations(range(1, n), k))
-        for _ in range(random_k):
+        for _ in range(random_here):
             schedules.append(tuple(sorted(rnd.sample(range(1, n), rnd.randint(1, min(n - 1, 12))))))
         bad = 0
         for cuts in schedules:
